@@ -570,8 +570,15 @@ pub mod c03;
 pub mod c04;
 pub mod c05;
 pub mod c06;
+pub mod c07;
 pub mod c09;
 pub mod c10;
+pub mod c12;
+pub mod c13;
+pub mod c15;
+pub mod c17;
+pub mod c19;
+pub mod c20;
 pub mod progeng;
 pub mod props_damage;
 pub mod props_misc;
